@@ -164,11 +164,17 @@ def bounded(ctx):
         samples.append(dict(registry="YTKRegistry", note="origin placed on every group boundary +-2"))
     except Exception as ex:
         viol.append(dict(name="registry_setup", what="registry rotations could not be run: %r" % (ex,), case={}))
+    # the shared scenarios: this property's oracle over the cross product of the unusual input dimensions
+    from bounded import scenarios as sn
+    n_sw, d_sw, v_sw = sn.sweep(ctx, ns, 'rotation')
+    evals += n_sw
+    distinct |= {("shared",) + tuple(map(str, k_)) for k_ in d_sw}
+    viol.extend(v_sw)
     uniq = {}
     for v_ in viol:
         uniq.setdefault(v_["name"], v_)
     return dict(evaluations=evals, distinct_nontrivial=len(distinct),
-                rule="(1) every concrete kit class and generic classes over enzymes x seeded instances x ALL n rotations: verdict, "
+                rule="" + sn.SWEEP_RULE + "; (1) every concrete kit class and generic classes over enzymes x seeded instances x ALL n rotations: verdict, "
                      "overhangs, target, placeholder identical; (2) a BsaI assembly with each participant at ALL its rotations: "
                      "product equal up to rotation; (3) registry plasmids (YTK, CIDAR, EcoFlex; every 9th in quick) with their own "
                      "class, rotated so that the origin falls on every boundary of the match and its groups (+-2) and at 3 seeded "
